@@ -296,7 +296,27 @@ def d3_table(ctx):
                         bad.append(f.path)
         return not bad, 'ordering of Objects is requested only after a tag equality test%s' % ((' — except in ' + ', '.join(bad)) if bad else '')
 
+    def call_arm_stack(ctx, site):
+        fn = site['f']
+        s_ = str(sym(fn, site['term']['cond']))
+        from rules import vmx
+        call = vmx.vmx(ctx)['arms'].get('Call')
+        if not call or site['block'] not in call['region'] or 'stack' not in s_ or "'Sub'" not in s_ or 'as_function' in s_:
+            return False, 'not covered'
+        ok, why = _csa_ok(ctx, ('O1', 'O2', 'O3', 'O8', 'O1-underflow'))
+        return ok, why or 'at a Call instruction argc + 1 operands are on the stack (CSA: arguments and callee are pushed before it, O1/O8)'
+
+    def int_encoder(ctx, site):
+        from framework import Report
+        from rules import shared
+        tmp = Report('tmp', 'quick')
+        shared.check_int_encoder_range(ctx, tmp, 'R06.3')
+        bad = [o for o in tmp.obs if not o['ok']]
+        return not bad, 'every caller of Object::int passes a range-checked or small value (R06.3)%s' % ((' — except ' + bad[0]['fn']) if bad else '')
+
     rows = [
+        ('vm::VM::run', 'Assert(Overflow)', 'R02.6/R17.1', call_arm_stack),
+        ('object::Object::int', 'assert_failed', 'R06.3', int_encoder),
         ('builtins::call_print', 'unwrap', 'local', print_guard),
         ('vm::VM::run', 'index', 'R02.6/R17.1', constants_index),
         ('<object::Object as core::cmp::PartialOrd>::partial_cmp', 'assert_failed', 'R06.4', cmp_callers),
@@ -334,6 +354,62 @@ def d3_table(ctx):
     return rows
 
 
+
+def verdict_for(ctx, s, rows=None, cache=None):
+    """(ok, text) for one panic site: D0-D2 local discharge, host-I/O class, D3 table, D4"""
+    F = ctx.facts()
+    rows = rows if rows is not None else d3_table(ctx)
+    cache = cache if cache is not None else ctx.__dict__.setdefault('_d3cache', {})
+    fn = s['f']
+    t = s['term']
+    what = s['what']
+    short = what.split('::')[-1] if s['kind'] == 'call' else what
+    mac = macro_of(s['span'])
+    d = discharge(F, s)
+    verdict = None
+    if d:
+        verdict = (True, '%s: %s' % d)
+    else:
+        # bin: host I/O failures are not failures of an input text
+        if s['fn'].startswith('bin::') and s['kind'] == 'call' and what.endswith('::unwrap'):
+            a = str(sym(fn, t['args'][0]))
+            if ('std::io' in a or 'std::fs' in a) and 'nederlang::' not in a.split('(')[1 if a.startswith("('call'") else 0][:60]:
+                src = sym(fn, t['args'][0])
+                if src[0] == 'call' and (src[1].startswith('std::io') or src[1].startswith('std::fs') or src[1].startswith('<std::io')):
+                    verdict = (True, 'ENV: failure of host I/O (%s), not of an input text' % src[1])
+        if verdict is None:
+            for (rf, rw, rule, ver) in rows:
+                if rf != s['fn']:
+                    continue
+                if rw is not None and not any(w in what for w in rw.split('|')):
+                    continue
+                if rw == 'Vec::<T, A>::pop|unwrap':
+                    a = str(sym(fn, t['args'][0]))
+                    if 'loop_contexts' not in a or not what.endswith('unwrap'):
+                        continue
+                ck = (rf, rw, rule)
+                if ck not in cache:
+                    try:
+                        cache[ck] = ver(ctx, s)
+                    except CheckerError:
+                        raise
+                ok, why = cache[ck]
+                if rule in ('local', 'R02.6/R17.1'):
+                    ok, why = ver(ctx, s)
+                if not ok and rule == 'R02.6/R17.1' and 'not covered' in why:
+                    continue
+                verdict = (ok, 'D3[%s]: %s' % (rule, why))
+                break
+    if verdict is None:
+        if s['kind'] == 'call' and what.endswith('::unwrap') and 'try_into' in str(sym(fn, t['args'][0]))[:80]:
+            verdict = (False, 'D4: a size conversion (position/count -> u16/u8) panics when the program is too large')
+        elif s['kind'] == 'assert':
+            verdict = (False, 'no guard discharges %s on %s' % (t['msg'], str(sym(fn, t['cond']))[:140]))
+        else:
+            verdict = (False, 'panic source not discharged (%s)' % (mac or short))
+    return verdict
+
+
 def run(ctx, rep):
     F = ctx.facts()
     rep.rule('R05.1', 'no undischarged panic source in any function reachable from the entry points (PSC census + D0-D3)')
@@ -354,48 +430,7 @@ def run(ctx, rep):
         mac = macro_of(s['span'])
         construct = '%s#%d%s' % (short if s['kind'] == 'assert' else what.replace('core::', '').replace('alloc::', ''), s['ord'], (' in %s!' % mac) if mac else '')
         loc = span_loc(s['span'])
-        d = discharge(F, s)
-        verdict = None
-        if d:
-            verdict = (True, '%s: %s' % d)
-        else:
-            # bin: host I/O failures are not failures of an input text
-            if s['fn'].startswith('bin::') and s['kind'] == 'call' and what.endswith('::unwrap'):
-                a = str(sym(fn, t['args'][0]))
-                if ('std::io' in a or 'std::fs' in a) and 'nederlang::' not in a.split('(')[1 if a.startswith("('call'") else 0][:60]:
-                    src = sym(fn, t['args'][0])
-                    if src[0] == 'call' and (src[1].startswith('std::io') or src[1].startswith('std::fs') or src[1].startswith('<std::io')):
-                        verdict = (True, 'ENV: failure of host I/O (%s), not of an input text' % src[1])
-            if verdict is None:
-                for (rf, rw, rule, ver) in rows:
-                    if rf != s['fn']:
-                        continue
-                    if rw is not None and not any(w in what for w in rw.split('|')):
-                        continue
-                    if rw == 'Vec::<T, A>::pop|unwrap':
-                        a = str(sym(fn, t['args'][0]))
-                        if 'loop_contexts' not in a or not what.endswith('unwrap'):
-                            continue
-                    ck = (rf, rw, rule)
-                    if ck not in cache:
-                        try:
-                            cache[ck] = ver(ctx, s)
-                        except CheckerError:
-                            raise
-                    ok, why = cache[ck]
-                    if rule in ('local', 'R02.6/R17.1'):
-                        ok, why = ver(ctx, s)
-                    if not ok and rule == 'R02.6/R17.1' and 'not covered' in why:
-                        continue
-                    verdict = (ok, 'D3[%s]: %s' % (rule, why))
-                    break
-        if verdict is None:
-            if s['kind'] == 'call' and what.endswith('::unwrap') and 'try_into' in str(sym(fn, t['args'][0]))[:80]:
-                verdict = (False, 'D4: a size conversion (position/count -> u16/u8) panics when the program is too large')
-            elif s['kind'] == 'assert':
-                verdict = (False, 'no guard discharges %s on %s' % (t['msg'], str(sym(fn, t['cond']))[:140]))
-            else:
-                verdict = (False, 'panic source not discharged (%s)' % (mac or short))
+        verdict = verdict_for(ctx, s, rows, cache)
         tally[verdict[1].split(':')[0].split('[')[0]] = tally.get(verdict[1].split(':')[0].split('[')[0], 0) + 1
         rep.ob(verdict[0], 'R05.1', s['fn'], construct, verdict[1], loc)
     rep.table('discharge_tally', tally)
